@@ -1,6 +1,6 @@
 CONSTANTS Routes = {"put", "update_value", "update_value_at", "apply_set", "apply_setstr", "convert_to_utf8"}
           Targets = {"ISO_IR 192", "GB18030", "ISO_IR 100"}
-          Source = "ISO_IR 100"
+          Sources = {"ISO_IR 100", "none"}
 SPECIFICATION ESpec
 INVARIANT ReadsBackUnchanged KeepsLengths
 CHECK_DEADLOCK FALSE
